@@ -34,6 +34,11 @@ def _node_at(ir, path):
     return n
 
 
+def _z3_gave_up(res):
+    """the harness's z3 timeout turned a query into 'unknown': not an answer of exo"""
+    return getattr(res, "exc", None) is not None and "unknown result from z3" in str(res.exc)
+
+
 class ForwardMonitor(Monitor):
     """C06: a forwarded cursor is invalid, or denotes the same code"""
 
@@ -373,10 +378,15 @@ class ForwardMonitor(Monitor):
             except CaseTimeout:
                 raise
             except BaseException as e:
+                if "unknown result from z3" in str(e):
+                    return ("z3", "timeout")
                 return ("exc", type(e).__name__)
 
         a = run(False)
         b = run(True)
+        if a[0] == "z3" or b[0] == "z3":
+            ctx.inconclusive("z3_timeout")
+            return
         ctx.stat("forward.implicit_evals")
         if a[0] == "ok" and b[0] == "ok":
             ctx.stat("forward.implicit_both_ok")
@@ -529,6 +539,9 @@ class PurityMonitor(Monitor):
         ctx.stat("purity.reruns")
         a = (result.status, irutil.fingerprint(result.proc._loopir_proc, alpha=True) if result.status == "accepted" else type(result.exc).__name__)
         b = (r2.status, irutil.fingerprint(r2.proc._loopir_proc, alpha=True) if r2.status == "accepted" else type(r2.exc).__name__)
+        if _z3_gave_up(result) or _z3_gave_up(r2):
+            ctx.inconclusive("z3_timeout")
+            return
         if a != b:
             sig = {"prop": "C07", "monitor": "rerun", "kind": f"{a[0]}-then-{b[0]}", "op": step["op"]}
             ctx.violation(sig, mk_case(sess, sess.steps if result.status == "accepted" else sess.steps + [step], "rerun", None, {"first": list(a), "second": list(b)}))
@@ -592,7 +605,9 @@ class PurityMonitor(Monitor):
             r3 = self._apply_again(sess, step, old_index)
             a = (r0.status, irutil.fingerprint(r0.proc._loopir_proc, alpha=True) if r0.status == "accepted" else type(r0.exc).__name__)
             b = (r3.status, irutil.fingerprint(r3.proc._loopir_proc, alpha=True) if r3.status == "accepted" else type(r3.exc).__name__)
-            if a != b:
+            if _z3_gave_up(r0) or _z3_gave_up(r3):
+                ctx.inconclusive("z3_timeout")
+            elif a != b:
                 sig = {"prop": "C07", "monitor": "fault-rerun", "kind": f"{a[0]}-then-{b[0]}", "op": step["op"]}
                 ctx.violation(sig, mk_case(sess, sess.steps if result.status == "accepted" else sess.steps + [step], "fault-rerun", None, {"first": list(a), "after_faults": list(b)}))
         finally:
